@@ -163,7 +163,7 @@ pub fn parse_obj(src: impl IntoIterator<Item = u8>) -> Result<Builder<()>> {
         }
     }
 
-    if !verts.is_empty() && max_i.pos >= verts.len() {
+    if !faces.is_empty() && max_i.pos >= verts.len() {
         return Err(IndexOutOfBounds("vertex", max_i.pos));
     }
     if let Some(uv) = max_i.uv.filter(|&i| i >= texcs.len()) {
